@@ -1,2 +1,256 @@
-(** C06 placeholder (statements follow). *)
-Require Import Celma.ArgH.Cont.
+(** C06  Multi-value destinations end up as the fold of all values given.
+    Only statements; proofs are [exact <lemma of ArgH/ContProofs.v>].
+
+    Model: ArgH/Cont.v ([run_uses k o st uses] = the state of the one container
+    argument after the uses, each use = one value string as delivered by the
+    handler for "-k v" and for every free value in multi-value mode;
+    [step k o] = what assign() does with one list element).  The spec
+    [fold_spec] is the property's sentence as a function of the flat element
+    sequence [all_tokens o uses].  Quantification: every destination kind
+    [k], every option record [o] that the definition-time setters accept
+    ([setup_ok]), every earlier content / state [st], every list of uses. *)
+From Coq Require Import List NArith ZArith Bool Permutation Sorted.
+Import ListNotations.
+Require Import Celma.Common.Res Celma.ArgH.Key Celma.ArgH.Handler Celma.ArgH.Cont Celma.ArgH.ContProofs.
+
+(** The destination after any list of uses is the fold over the concatenated
+    elements: earlier content discarded once if so configured, then every
+    element in order (counted, checked, formatted, converted, tested for
+    duplicates, placed), sorted at the end if so configured.  All 18 kinds,
+    all option combinations.  [card_cut_ok]: a use without any element is
+    invisible only when there is no cardinality (the default of containers). *)
+Theorem C06_cont_fold :
+  forall k o st uses,
+    setup_ok k o = true -> card_cut_ok o uses ->
+    run_uses k o st uses = fold_spec (step k o) o st (negb (is_nil uses)) (all_tokens o uses).
+Proof. exact cont_fold. Qed.
+Print Assumptions C06_cont_fold.
+
+(** Two ways of cutting the same element sequence into uses / lists / free
+    values give the same destination (and the same refusal). *)
+Theorem C06_cont_cut_independent :
+  forall k o st uses1 uses2,
+    setup_ok k o = true -> card_cut_ok o uses1 -> card_cut_ok o uses2 ->
+    all_tokens o uses1 = all_tokens o uses2 -> is_nil uses1 = is_nil uses2 ->
+    run_uses k o st uses1 = run_uses k o st uses2.
+Proof. exact cont_cut_independent. Qed.
+Print Assumptions C06_cont_cut_independent.
+
+(** In multi-value mode a free value is one more use of the argument ... *)
+Theorem C06_cont_free_values :
+  forall stp o st us,
+    o_multi o = true \/ forallb is_key us = true ->
+    run_events stp o st true us = run_uses_gen stp o st (map use_text us).
+Proof. exact cont_free_values. Qed.
+Print Assumptions C06_cont_free_values.
+
+(** ... otherwise the first free value is refused. *)
+Theorem C06_cont_free_value_refused :
+  forall stp o st hl pre v post,
+    o_multi o = false -> forall st', run_events stp o st hl (pre ++ UFree v :: post) <> Ok st'.
+Proof. exact cont_free_value_refused. Qed.
+Print Assumptions C06_cont_free_value_refused.
+
+(** Clear-before-assign discards earlier content exactly once: the uses behave
+    like the same uses without the option on the emptied destination (so what
+    the first use stored is kept by all later uses). *)
+Theorem C06_cont_clear_once :
+  forall k o before u rest,
+    o_clear o = true ->
+    run_uses k o (init_state o before) (u :: rest) =
+    run_uses k (no_clear o) (init_state (no_clear o) (clear_cont before)) (u :: rest).
+Proof. exact cont_clear_once. Qed.
+Print Assumptions C06_cont_clear_once.
+
+(** Sorting yields ascending order (int containers, the filled part of arrays,
+    strings in byte order). *)
+Theorem C06_cont_sorted :
+  forall k o st uses st',
+    o_sort o = true -> uses <> [] -> run_uses k o st uses = Ok st' -> sorted_cont (c_val st').
+Proof. exact cont_sorted. Qed.
+Print Assumptions C06_cont_sorted.
+
+(** Checks are applied to every single element, whatever the kind and the cut:
+    accepted uses contain only elements that pass all checks ... *)
+Theorem C06_cont_checks_every_element :
+  forall p k o st uses st',
+    run_uses_gen (step_gen p k o) o st uses = Ok st' ->
+    Forall (fun t => run_checks (o_checks o) t = Ok tt) (all_tokens o uses).
+Proof. exact cont_checks_every_element. Qed.
+Print Assumptions C06_cont_checks_every_element.
+
+(** ... so one violating element at any position refuses the uses. *)
+Corollary C06_cont_bad_element_refused :
+  forall p k o st uses t,
+    In t (all_tokens o uses) -> run_checks (o_checks o) t <> Ok tt ->
+    forall st', run_uses_gen (step_gen p k o) o st uses <> Ok st'.
+Proof. exact cont_bad_element_refused. Qed.
+Print Assumptions C06_cont_bad_element_refused.
+
+(** Without unique-data the int containers other than the sets keep every
+    element: formats and conversion applied to each ([conv_int]), placed after
+    (or, for forward_list / stack, in front of) the earlier content. *)
+Theorem C06_cont_seq_content :
+  forall p k o st u rest st' l0,
+    ints_kind k = true -> keeps_all k = true -> o_uniq o = false ->
+    c_val st = CInts l0 ->
+    run_uses_gen (step_gen p k o) o st (u :: rest) = Ok st' ->
+    exists l vals, c_val st' = CInts l /\
+      Forall2 (fun t v => conv_int o t = Ok v) (all_tokens o (u :: rest)) vals /\
+      Permutation l (start_of st l0 ++ vals) /\
+      (o_sort o = false -> l = fold_left (fun acc v => place k v acc) vals (start_of st l0)) /\
+      (o_sort o = true -> l = sort_by Z.ltb (start_of st l0 ++ vals)).
+Proof. exact cont_seq_content. Qed.
+Print Assumptions C06_cont_seq_content.
+
+Theorem C06_place_append :
+  forall k vals l,
+    match k with KVec | KDeque | KList | KQueue => true | _ => false end = true ->
+    fold_left (fun acc v => place k v acc) vals l = l ++ vals.
+Proof. exact place_fold_append. Qed.
+Print Assumptions C06_place_append.
+
+Theorem C06_place_front :
+  forall k vals l,
+    match k with KFwd | KStack => true | _ => false end = true ->
+    fold_left (fun acc v => place k v acc) vals l = rev vals ++ l.
+Proof. exact place_fold_front. Qed.
+Print Assumptions C06_place_front.
+
+(** Unique data, duplicates dropped. *)
+Theorem C06_cont_unique_drop :
+  forall p k o st u rest st' l0,
+    ints_kind k = true -> o_uniq o = true -> o_dup_err o = false ->
+    c_val st = CInts l0 -> NoDup (start_of st l0) ->
+    run_uses_gen (step_gen p k o) o st (u :: rest) = Ok st' ->
+    exists l, c_val st' = CInts l /\ NoDup l /\
+      forall z, In z l <->
+        In z (start_of st l0) \/ exists t, In t (all_tokens o (u :: rest)) /\ conv_int o t = Ok z.
+Proof. exact cont_unique_drop. Qed.
+Print Assumptions C06_cont_unique_drop.
+
+(** Unique data, duplicates refused: accepted only if all values are new. *)
+Theorem C06_cont_unique_refuse :
+  forall p k o st u rest st' l0,
+    ints_kind k = true -> o_uniq o = true -> o_dup_err o = true ->
+    c_val st = CInts l0 -> NoDup (start_of st l0) ->
+    run_uses_gen (step_gen p k o) o st (u :: rest) = Ok st' ->
+    exists l vals, c_val st' = CInts l /\
+      Forall2 (fun t v => conv_int o t = Ok v) (all_tokens o (u :: rest)) vals /\
+      Permutation l (start_of st l0 ++ vals) /\ NoDup (start_of st l0 ++ vals).
+Proof. exact cont_unique_refuse. Qed.
+Print Assumptions C06_cont_unique_refuse.
+
+(** Arrays (fixed tree): unique data looks at the filled part only; nothing
+    given is lost. *)
+Theorem C06_cont_array_unique_drop :
+  forall k n o st u rest st' l0 i0,
+    arr_kind k n -> o_uniq o = true -> o_dup_err o = false ->
+    c_val st = CArr l0 i0 -> NoDup (firstn i0 l0) ->
+    run_uses k o st (u :: rest) = Ok st' ->
+    exists l i, c_val st' = CArr l i /\ NoDup (firstn i l) /\
+      forall z, In z (firstn i l) <->
+                In z (firstn i0 l0) \/ exists t, In t (all_tokens o (u :: rest)) /\ conv_int o t = Ok z.
+Proof. exact cont_array_unique_drop. Qed.
+Print Assumptions C06_cont_array_unique_drop.
+
+(** vector<bool> (fixed tree): exactly the positions given (and kept from
+    before) are set and the vector covers them. *)
+Theorem C06_cont_vector_bool_positions :
+  forall o st u rest st' size0 l0,
+    c_val st = CVBool size0 l0 -> Forall (fun q => (q < size0)%N) l0 ->
+    run_uses KVecBool o st (u :: rest) = Ok st' ->
+    exists size l, c_val st' = CVBool size l /\ Forall (fun q => (q < size)%N) l /\
+      forall q, In q l <->
+        In q (if c_clearp st then [] else l0) \/
+        exists t, In t (all_tokens o (u :: rest)) /\ lex_size (apply_fmts (o_fmts o) t) = Ok q.
+Proof. exact cont_vector_bool_positions. Qed.
+Print Assumptions C06_cont_vector_bool_positions.
+
+(** Fixed-size destinations refuse more elements than they can hold. *)
+Theorem C06_cont_fixed_refuses_overflow_array :
+  forall p k n o st uses st' l i,
+    arr_kind k n -> c_val st = CArr l i -> i <= n ->
+    run_uses_gen (step_gen p k o) o st uses = Ok st' ->
+    exists l' i', c_val st' = CArr l' i' /\ i' <= n /\
+      (o_uniq o = false -> i' = i + length (all_tokens o uses)).
+Proof. exact cont_fixed_refuses_overflow_array. Qed.
+Print Assumptions C06_cont_fixed_refuses_overflow_array.
+
+Theorem C06_cont_fixed_refuses_overflow_tuple :
+  forall p o st uses st' a s b n,
+    c_val st = CTuple a s b n -> n <= 3 ->
+    run_uses_gen (step_gen p KTuple o) o st uses = Ok st' ->
+    exists a' s' b' n', c_val st' = CTuple a' s' b' n' /\ n' <= 3 /\ n' = n + length (all_tokens o uses).
+Proof. exact cont_fixed_refuses_overflow_tuple. Qed.
+Print Assumptions C06_cont_fixed_refuses_overflow_tuple.
+
+Theorem C06_cont_fixed_refuses_overflow_bitset :
+  forall p n o st uses st' l,
+    c_val st = CBits l -> Forall (fun q => (q < n)%N) l ->
+    run_uses_gen (step_gen p (KBitset n) o) o st uses = Ok st' ->
+    (exists l', c_val st' = CBits l' /\ Forall (fun q => (q < n)%N) l') /\
+    Forall (fun t => exists q, lex_size (apply_fmts (o_fmts o) t) = Ok q /\ (q < n)%N) (all_tokens o uses).
+Proof. exact cont_fixed_refuses_overflow_bitset. Qed.
+Print Assumptions C06_cont_fixed_refuses_overflow_bitset.
+
+(** The pinned tree violates the property in two places (both repaired, see
+    fixes/C06-1, C06-2): on the pinned element steps the statements of
+    [C06_cont_array_unique_drop] and [C06_cont_vector_bool_positions] fail. *)
+Theorem C06_pinned_array_unique_refuted :
+  exists o ws st l i,
+    eval_pinned (KArr 4) o (CArr [0; 0; 0; 0]%Z 0) ws = Ok st /\ c_val st = CArr l i /\
+    conv_int o [48%N] = Ok 0%Z /\ In [48%N] (all_tokens o [[48; 44; 53]%N]) /\
+    ws = [[45; 108]; [48; 44; 53]]%N /\ ~ In 0%Z (firstn i l).
+Proof.
+  exists (o_uniq_only (KArr 4)), w_arr. eexists. exists [5; 0; 0; 0]%Z, 1.
+  split; [vm_compute; reflexivity|]. split; [reflexivity|]. split; [vm_compute; reflexivity|].
+  split; [vm_compute; auto|]. split; [reflexivity|]. simpl. intros [H|[]]. discriminate H.
+Qed.
+Print Assumptions C06_pinned_array_unique_refuted.
+
+Theorem C06_pinned_vector_bool_refuted :
+  exists o ws st size l,
+    eval_pinned KVecBool o (CVBool 1 []) ws = Ok st /\ c_val st = CVBool size l /\
+    lex_size (apply_fmts (o_fmts o) [49%N]) = Ok 1%N /\ ws = [[45; 108]; [49]]%N /\ ~ In 1%N l.
+Proof.
+  exists (o_plain KVecBool), w_vb. eexists. exists 1%N, [].
+  split; [vm_compute; reflexivity|]. split; [reflexivity|]. split; [vm_compute; reflexivity|].
+  split; [reflexivity|]. intros [].
+Qed.
+Print Assumptions C06_pinned_vector_bool_refuted.
+
+(** Non-vacuity: the hypotheses are satisfiable and the statements say
+    something on concrete cases. *)
+Definition o_all : copts :=
+  {| o_sep := 44; o_clear := true; o_sort := true; o_uniq := true; o_dup_err := false; o_multi := true;
+     o_checks := [CLower 0]; o_fmts := []; o_card := CardNone |}.
+
+(** "3,1" then "2,3" on a vector holding [7;3], clear + sort + unique: [1;2;3] *)
+Example C06_nonvacuous_fold :
+  setup_ok KVec o_all = true /\
+  option_map c_val (match run_uses KVec o_all (init_state o_all (CInts [7; 3]%Z)) [[51; 44; 49]; [50; 44; 51]]%N with
+                    | Ok s => Some s | _ => None end) = Some (CInts [1; 2; 3]%Z).
+Proof. split; vm_compute; reflexivity. Qed.
+
+(** the same elements cut differently: "3" "1,2" "3" *)
+Example C06_nonvacuous_cut :
+  all_tokens o_all [[51; 44; 49]; [50; 44; 51]]%N = all_tokens o_all [[51]; [49; 44; 44; 50]; [51]]%N /\
+  card_cut_ok o_all [[51]; [49; 44; 44; 50]; [51]]%N.
+Proof. split; [vm_compute; reflexivity|left; reflexivity]. Qed.
+
+(** the two fixed witnesses *)
+Example C06_fixed_array_unique :
+  option_map c_val (match eval (KArr 4) (o_uniq_only (KArr 4)) (CArr [0; 0; 0; 0]%Z 0) w_arr with
+                    | Ok st => Some st | _ => None end) = Some (CArr [0; 5; 0; 0]%Z 2).
+Proof. vm_compute; reflexivity. Qed.
+
+Example C06_fixed_vector_bool :
+  option_map c_val (match eval KVecBool (o_plain KVecBool) (CVBool 1 []) w_vb with
+                    | Ok st => Some st | _ => None end) = Some (CVBool 2 [1%N]).
+Proof. vm_compute; reflexivity. Qed.
+
+(** a fifth element for T[4] is refused *)
+Example C06_nonvacuous_overflow :
+  is_ok (eval (KArr 4) (o_plain (KArr 4)) (CArr [0; 0; 0; 0]%Z 0) [[45; 108]; [49; 44; 50; 44; 51; 44; 52; 44; 53]]%N) = false.
+Proof. vm_compute; reflexivity. Qed.
